@@ -234,7 +234,17 @@ def coalesce_to_none(ctx, R, quals, why):
         for n in body_nodes(fi):
             if isinstance(n, ast.BoolOp) and isinstance(n.op, ast.Or) and isinstance(n.values[-1], ast.Constant) and n.values[-1].value is None \
                     and isinstance(n.values[0], (ast.Call, ast.Name, ast.Attribute)):
-                hit = n
+                # only a computed *selection of jobs* must stay empty when it is empty; an empty filter ({} / []) legitimately means 'no filter'
+                src = common.inline_at(ctx, fi, n.values[0], n)
+                sel = False
+                for c in ast.walk(src):
+                    if isinstance(c, ast.Call):
+                        tq = common.targets_of(ctx, fi, c)
+                        nm = c.func.attr if isinstance(c.func, ast.Attribute) else (c.func.id if isinstance(c.func, ast.Name) else "")
+                        if any(t.endswith(("._find_job_ids", ".find_jobs", ":_find_with_filter", ":_find_with_filter_or_none")) for t in tq) or nm in ("_find_job_ids", "find_jobs", "_find_with_filter"):
+                            sel = True
+                if sel:
+                    hit = n
         k = f"{q}|or-none"
         if hit is not None:
             out.append(ctx.viol(R, fi, hit, f"`{canon(hit)[:60]}`: {why}", construct=k))
